@@ -89,6 +89,10 @@ def check(run, replay):
         return
     vh = vlib.build_harness(PID)
 
+    if replay:
+        do_replay(run, model, vh, replay)
+        return
+
     if not ok:
         # which shipped text breaks the table theorem? -> concrete input
         found = False
@@ -209,10 +213,60 @@ def check(run, replay):
     load_mutants(run, rng, n=60 if quick else 1500)
 
 
+def do_replay(run, model, vh, path):
+    """Re-run one recorded failing input on the current tree."""
+    import json
+    d = json.load(open(path))
+    if "valid_text" in d and "value" in d:
+        t = d["valid_text"]
+        t = bytes.fromhex(t[4:]) if t.startswith("hex:") else t.encode("latin-1")
+        c = [t, str(d["value"]).encode(), b"c"]
+        rc, io, ie = vlib.run_lines([vh, "intvalid"], [vlib.enc_case(c)])
+        i = canon_exc(vlib.dec_line(io[0]))
+        s = model_eval(model, "spec", [c[:2]])[0]
+        m = model_eval(model, "intvalid", [c])[0]
+        doc = s
+        if t.startswith(b"!") and s == [b"N"]:
+            try:
+                doc = [b"1"] if int(t[1:]) != int(d["value"]) else [b"0"]
+            except ValueError:
+                pass
+        vlib.log("replay: impl %s, documented %s, model %s" % (vlib.show(i), vlib.show(doc), vlib.show(m)))
+        if doc in ([b"0"], [b"1"]) and i != doc:
+            run.violation(d.get("key", "replay"), d.get("what", "replayed input still fails"), d)
+        elif m != i and m != [b"O"]:
+            run.violation(d.get("key", "replay"), "model and Library disagree on the replayed input", d, found_input=False)
+    elif "cfg" in d and "c" in d and os.path.exists(str(d["cfg"])):
+        p = subprocess.run([vlib.CPPCHECK, "--library=" + d["cfg"], "--template={line}:{id}", "-q", d["c"]], stdout=subprocess.PIPE, stderr=subprocess.STDOUT)
+        vlib.log(p.stdout.decode("utf-8", "replace")[-2000:])
+        if p.returncode < 0:
+            run.violation(d.get("key", "replay"), d.get("what", ""), d)
+    elif "cfg" in d and os.path.exists(str(d["cfg"])):
+        tmp = tempfile.mkdtemp(prefix="c30r_")
+        srcp = os.path.join(tmp, "t.c")
+        open(srcp, "w").write("void f(int x) { memset(0, x, 1); }\n")
+        p = subprocess.run([vlib.CPPCHECK, "--library=" + d["cfg"], "-q", srcp], stdout=subprocess.PIPE, stderr=subprocess.STDOUT)
+        vlib.log("replay: rc=%s %s" % (p.returncode, p.stdout.decode("utf-8", "replace")[-300:]))
+        if p.returncode < 0:
+            run.violation(d.get("key", "replay"), d.get("what", ""), d)
+    elif "cfg" in d and "c" in d:      # inline texts (end-to-end case)
+        tmp = tempfile.mkdtemp(prefix="c30r_")
+        open(os.path.join(tmp, "f.cfg"), "w").write(d["cfg"])
+        open(os.path.join(tmp, "f.c"), "w").write(d["c"])
+        p = subprocess.run([vlib.CPPCHECK, "--library=" + os.path.join(tmp, "f.cfg"), "--template={line}:{id}", "-q", os.path.join(tmp, "f.c")],
+                           stdout=subprocess.PIPE, stderr=subprocess.STDOUT)
+        got = sorted(set(re.findall(r":(invalidFunctionArgBool|invalidFunctionArg|nullPointer)\b", p.stdout.decode("utf-8", "replace"))))
+        vlib.log("replay: reported %s, recorded %s" % (got, d.get("reported")))
+        if got == sorted(d.get("reported", [])):
+            run.violation(d.get("key", "replay"), d.get("what", ""), d)
+    else:
+        vlib.log("replay: nothing replayable in " + path)
+
+
 def judge(run, model, stream, diffs):
     """A disagreement: evaluate the documented meaning on the same input."""
     shown = 0
-    for c, m, i in sorted(diffs, key=lambda d: (len(d[0][0]), d[0][1])):
+    for c, m, i in sorted(diffs, key=lambda d: (len(d[0][0]) + len(d[0][1]), d[0][0], d[0][1])):
         if shown >= 3:
             break
         shown += 1
@@ -337,6 +391,8 @@ def mutate_cfg(rng, data):
     kind = rng.random()
     if kind < 0.45:     # byte level
         for _ in range(rng.choice([1, 1, 2, 5, 20])):
+            if not data:
+                break
             pos = rng.randrange(len(data))
             k = rng.randrange(4)
             if k == 0:
@@ -420,8 +476,8 @@ def classify(data, rc, out):
         m = re.search(r"what\(\):\s*(.*)", out)
         return "load-abort:" + hashlib.sha1((m.group(1) if m else out[-200:]).encode()).hexdigest()[:10]
     if rc == -11:
-        nr = re.search(rb"<noreturn\s*(/>|></noreturn>)", data)
-        mem = re.search(rb"<(alloc|dealloc|realloc|use)(\s[^>]*)?(/>|></)", data)
+        nr = re.search(rb"<noreturn\s*(/>|>\s*</noreturn>)", data)
+        mem = re.search(rb"<(alloc|dealloc|realloc|use)(\s[^>]*)?(/>|>\s*</)", data)
         if nr and not mem:
             return "load-crash:noreturn-empty"
         if mem and not nr:
